@@ -36,3 +36,81 @@ contract(
     modifies=[],
     properties=['C13'],
 )
+
+# the HL7 offset language, written from the property (C13): +0000..+1400, -0000..-1200, minutes 00-59, 00 at the extremes
+contract(
+    'hl7apy.utils:_split_offset',
+    sig={'value': 'str'},
+    returns='tuple[str,str]',
+    ensures=[
+        ('offset_split_off', 'implies(is_hl7_offset(tail5(value)), result[1] == tail5(value) and '
+                             'result[0] == replace_all(value, tail5(value), ""))'),
+        ('no_offset', 'implies(not is_hl7_offset(tail5(value)), result[0] == value and result[1] == "")'),
+    ],
+    raises={}, raises_only=[], modifies=[], allocates=False,
+    properties=['C13'],
+)
+
+contract(
+    'hl7apy.utils:_datetime_obj_factory',
+    sig={'value': 'str', 'fmt': 'str'},
+    returns='DateTime',
+    ensures=[('accepted', 'strptime_ok(value, fmt)'), ('value', 'result is strptime_val(value, fmt)')],
+    raises={'ValueError': {'when': 'not strptime_ok(value, fmt)', 'must': 'not strptime_ok(value, fmt)'}},
+    raises_only=['ValueError'], modifies=[], allocates=False,
+    properties=['C13'],
+    notes='datetime.strptime is the final arbiter: its acceptance and value are uninterpreted functions of (text, format)',
+)
+
+contract(
+    'hl7apy.utils:get_date_info',
+    sig={'value': 'str'},
+    returns='tuple[DateTime,str]',
+    ensures=[('format_by_length', 'date_fmt_ok(value) and result[1] == date_fmt(value)'),
+             ('parsed', 'strptime_ok(value, date_fmt(value)) and result[0] is strptime_val(value, date_fmt(value))')],
+    raises={'ValueError': {'when': 'not (date_fmt_ok(value) and strptime_ok(value, date_fmt(value)))',
+                           'must': 'not (date_fmt_ok(value) and strptime_ok(value, date_fmt(value)))'}},
+    raises_only=['ValueError'], modifies=[], allocates=False,
+    properties=['C13'],
+)
+
+_TV = 'date_part(value)'
+_T_OK = 'time_fmt_ok(%s) and strptime_ok(%s, time_fmt(%s))' % (_TV, _TV, _TV)
+contract(
+    'hl7apy.utils:get_timestamp_info',
+    sig={'value': 'str'},
+    returns='tuple[DateTime,str,str,int]',
+    ensures=[('accepted', _T_OK),
+             ('format', 'result[1] == time_fmt(%s)' % _TV),
+             ('offset', 'result[2] == offset_part(value)'),
+             ('precision', 'result[3] == time_precision(%s)' % _TV),
+             ('parsed', 'result[0] is strptime_val(%s, time_fmt(%s))' % (_TV, _TV))],
+    raises={'ValueError': {'when': 'not (%s)' % _T_OK, 'must': 'not (%s)' % _T_OK}},
+    raises_only=['ValueError'], modifies=[], allocates=False,
+    properties=['C13'],
+)
+
+_D8 = 'substr(date_part(value), 0, 8)'
+_REST = 'substr_from(date_part(value), 8)'
+_DT_FMT = '(date_fmt(%s) + (time_fmt(%s) if strlen(%s) > 0 else ""))' % (_D8, _REST, _REST)
+_DT_OK = ('date_fmt_ok(%s) and (strlen(%s) == 0 or time_fmt_ok(%s)) and strptime_ok(date_part(value), %s)'
+          % (_D8, _REST, _REST, _DT_FMT))
+contract(
+    'hl7apy.utils:get_datetime_info',
+    sig={'value': 'str'},
+    returns='tuple[DateTime,str,str,int]',
+    ensures=[('accepted', _DT_OK),
+             ('format', 'result[1] == %s' % _DT_FMT),
+             ('offset', 'result[2] == offset_part(value)'),
+             ('precision', 'result[3] == (time_precision(%s) if strlen(%s) > 0 else 4)' % (_REST, _REST)),
+             ('parsed', 'result[0] is strptime_val(date_part(value), %s)' % _DT_FMT)],
+    raises={'ValueError': {'when': 'not (%s)' % _DT_OK, 'must': 'not (%s)' % _DT_OK}},
+    raises_only=['ValueError'], modifies=[], allocates=False,
+    properties=['C13'],
+)
+
+for _n, _callee_ok in (('check_date', 'date_fmt_ok(value) and strptime_ok(value, date_fmt(value))'),
+                       ('check_timestamp', _T_OK), ('check_datetime', _DT_OK)):
+    contract('hl7apy.utils:' + _n, sig={'value': 'str'}, returns='bool',
+             ensures=[('verdict', 'result == (%s)' % _callee_ok)], raises={}, raises_only=[], modifies=[], allocates=False,
+             properties=['C13'])
